@@ -179,7 +179,8 @@ LEX_SHAPES = [
 
 
 class _TextBuilder:
-    def __init__(self, ctx, wsmax, group_budget):
+    def __init__(self, ctx, wsmax, group_budget, odd_kinds=False):
+        self.odd_kinds = odd_kinds
         self.ctx = ctx
         self.n = 0
         self.wsmax = wsmax
@@ -211,7 +212,9 @@ class _TextBuilder:
     def render(self, tree, parent=None):
         k = tree[0]
         if k == 'leaf':
-            return self.maybe_group('sym:' + tree[1])
+            kind = common.LEAF_KINDS[int(tree[1]) % len(common.LEAF_KINDS)] \
+                if self.odd_kinds else 'sym'
+            return self.maybe_group(kind + ':' + tree[1])
         if k == 'not':
             inner = self.render(tree[1], 'not')
             if tree[1][0] in ('and', 'or'):
@@ -231,12 +234,12 @@ class _TextBuilder:
         return self.maybe_group(out)
 
 
-def run_lexical(ctx, shape, wsmax, groups):
+def run_lexical(ctx, shape, wsmax, groups, odd=False):
     from oslo_policy import _parser
     common.set_ctx(ctx)
     common.register_leaves()
     tree = LEX_SHAPES[shape]
-    b = _TextBuilder(ctx, wsmax, groups)
+    b = _TextBuilder(ctx, wsmax, groups, odd)
     lead = b.optws()
     text = lead + b.render(tree) + b.optws()
     check = _parser.parse_rule(text)
@@ -253,10 +256,14 @@ def cubes_lexical(tier, seed):
     if tier == 'quick':
         return [{'shape': i, 'wsmax': 1, 'groups': 1}
                 for i in range(len(LEX_SHAPES))] + \
+               [{'shape': i, 'wsmax': 1, 'groups': 0, 'odd': True}
+                for i in range(len(LEX_SHAPES))] + \
                [{'shape': i, 'wsmax': 2, 'groups': 0} for i in range(6)]
     # measured: wsmax 2 with redundant groups exceeds 3000 s per cube for
     # the larger shapes; the combinations below finish in minutes
     return [{'shape': i, 'wsmax': 1, 'groups': 2}
+            for i in range(len(LEX_SHAPES))] + \
+           [{'shape': i, 'wsmax': 1, 'groups': 1, 'odd': True}
             for i in range(len(LEX_SHAPES))] + \
            [{'shape': i, 'wsmax': 2, 'groups': 0} for i in range(8)] + \
            [{'shape': i, 'wsmax': 2, 'groups': 1} for i in range(5)] + \
@@ -380,7 +387,8 @@ def run_gen(ctx, seed, index, budget, nleaves, summary):
     common.set_ctx(ctx)
     common.register_leaves()
     rng = random.Random('%s/%s' % (seed, index))
-    leaves = ['sym:%d' % i for i in range(nleaves)]
+    leaves = ['%s:%d' % (common.LEAF_KINDS[i % len(common.LEAF_KINDS)], i)
+              for i in range(nleaves)]
     tree = boolang.gen_tree(rng, leaves, budget)
     text = _variant(rng, tree)
     want = boolang.formula(
